@@ -10,6 +10,8 @@ import ISnap.Driver.RewriteCmd
 import ISnap.Driver.AssignCmd
 import ISnap.Driver.SessionCmd
 import ISnap.Driver.ExternalCmd
+import ISnap.Driver.SetCmd
+import ISnap.Driver.FinishCmd
 /-
   isnap-driver: one s-expression per line in, one per line out (DESIGN.md §3.7).
   Unknown or malformed input answers `(bad-op)`, never a default.
@@ -21,6 +23,7 @@ def handle (e : Sexp) : Sexp :=
   | .list (.atom "sites" :: rest) => (SiteCmd.run rest).getD (.list [.atom "bad-op"])
   | .list (.atom "assign" :: rest) => (AssignCmd.run rest).getD (.list [.atom "bad-op"])
   | .list (.atom "storage" :: rest) => (ExternalCmd.run rest).getD (.list [.atom "bad-op"])
+  | .list (.atom "setsort" :: rest) => (SetCmd.run rest).getD (.list [.atom "bad-op"])
   | .list (.atom "align" :: rest) => (AlignCmd.run rest).getD (.list [.atom "bad-op"])
   | .list (.atom c :: rest) =>
     if c == "strlit" || c == "pyrepr" || c == "bytesrepr" || c == "evallit" || c == "evalbytes" then
@@ -29,6 +32,8 @@ def handle (e : Sexp) : Sexp :=
       (RewriteCmd.run c rest).getD (.list [.atom "bad-op"])
     else if c == "session" || c == "inline" || c == "tables" then
       (SessionCmd.run c rest).getD (.list [.atom "bad-op"])
+    else if c == "finish" || c == "plan" then
+      (FinishCmd.run c rest).getD (.list [.atom "bad-op"])
     else if c == "ping" then .list [.atom "pong"] else .list [.atom "bad-op"]
   | _ => .list [.atom "bad-op"]
 
